@@ -35,7 +35,7 @@ import (
 type World struct{ Scratch string }
 
 func (w *World) Name() string    { return "dpos" }
-func (w *World) Props() []string { return []string{"C08", "C09"} }
+func (w *World) Props() []string { return []string{"C08", "C09", "C07"} }
 
 func init() {
 	simkit.Register("dpos", func(scratch string, t *testing.T) simkit.World { return &World{Scratch: scratch} })
@@ -537,17 +537,41 @@ func (e *env) doSync(a, b int) {
 	}
 	e.setClock()
 	x.Count("sync", 1)
+	// C07 with the real consensus: when a correct peer's main chain is strictly longer, forks at or
+	// above this node's irreversible block and is handed over completely and in order, the node
+	// must switch to it (every block on a correct node's main chain is valid; in the final phase
+	// clocks are right, so none of them is "future").
+	bestB := nb.Best()
+	la, _ := e.lib(a)
+	mustAdopt := e.faultsStopped && e.correct(a) && e.correct(b) && bestB.BlockNo() > na.Best().BlockNo() && h >= la
+	complete := true
 	for i := h + 1; i <= top; i++ {
 		var blk *types.Block
 		nb.Do(func() { blk, _ = nb.CS.VerifGetBlockByNo(i) })
 		if blk == nil {
-			return
+			complete = false
+			break
+		}
+		// a block produced earlier by a producer whose clock ran ahead may still lie in the future
+		im := int64(e.intv) * 1000
+		bsl, _ := ownerIndex(blk.GetHeader().GetTimestamp(), im, e.nbp)
+		lsl, _ := ownerIndex(e.now.Add(na.Skew).UnixNano(), im, e.nbp)
+		if bsl >= lsl+2 {
+			mustAdopt = false
 		}
 		m := &envelope{from: b, to: a, b: simnode.CloneBlock(blk), kind: kHonest}
 		e.msgs = append(e.msgs, m)
 		e.doDeliver(len(e.msgs)-1, false)
 		if x.Failed() {
 			return
+		}
+	}
+	if mustAdopt && complete {
+		x.Probe("longer-chain-handed-over-after-faults")
+		// (blocks that were waiting as orphans may have connected meanwhile and made the node's own
+		// chain as long: an equal branch does not displace it — only staying strictly shorter is wrong)
+		if na.Best().BlockNo() < bestB.BlockNo() {
+			x.Fail("C07", "longer-valid-branch-not-adopted", "after-sync", fmt.Sprintf("node %d (best %d, LIB %d) was handed, in order, the strictly longer main chain of correct node %d (best %d, fork point %d) and did not switch to it", a, na.Best().BlockNo(), la, b, bestB.BlockNo(), h), e.step)
 		}
 	}
 }
@@ -1147,6 +1171,7 @@ func (e *env) livenessPhase() {
 	for _, m := range e.msgs {
 		m.done = true
 	}
+	e.faultsStopped = true
 	e.step = len(x.Case.Steps)
 	// everybody learns everybody's chain (what the syncer does once peers are reachable)
 	allSync := func() {
